@@ -129,6 +129,7 @@ type RaftTune struct {
 	SnapshotThreshold uint64
 	TrailingLogs      uint64
 	SnapshotInterval  time.Duration
+	MaxAppendEntries  int
 }
 
 // RaftConfig returns a raft config for a peer folder.
@@ -157,6 +158,9 @@ func RaftConfig(dir string, peers []peer.ID, t RaftTune) *raft.Config {
 	if t.TrailingLogs > 0 {
 		cfg.RaftConfig.TrailingLogs = t.TrailingLogs
 	}
+	if t.MaxAppendEntries > 0 {
+		cfg.RaftConfig.MaxAppendEntries = t.MaxAppendEntries
+	}
 	if t.SnapshotInterval > 0 {
 		cfg.RaftConfig.SnapshotInterval = t.SnapshotInterval
 	}
@@ -182,6 +186,9 @@ type NetPeer struct {
 	Host      host.Host
 	PubSub    *pubsub.PubSub
 	DHT       *dual.DHT
+	// SlowRaft > 0 delays every read on incoming Raft streams (see SlowHost).
+	SlowRaft time.Duration
+	Slow     *SlowHost
 }
 
 // PrepareHost creates the peer's libp2p host (so that addresses can be
@@ -197,6 +204,10 @@ func (p *NetPeer) PrepareHost(ctx context.Context) error {
 	}
 	p.Host, p.PubSub, p.DHT = h, ps, idht
 	p.ID = h.ID()
+	if p.SlowRaft > 0 {
+		p.Slow = NewSlowHost(h, "raft", p.SlowRaft)
+		p.Host = p.Slow
+	}
 	return nil
 }
 
